@@ -11,6 +11,7 @@ import QSP.Model.SymQSP
 import QSP.Model.Jacobian
 import QSP.Model.Generators
 import QSP.Model.Accuracy
+import QSP.Model.FPSearch
 open QSP QSP.Proto
 
 def bad : String := "bad-op"
@@ -258,6 +259,19 @@ def handle (toks : List String) : String :=
     match parseRatList a with
     | some a => showRatList (monoToCheb a)
     | none => bad
+  -- fixed-point search ---------------------------------------------------------------------
+  | ["fp.layout", avec] =>
+    match parseRatList avec with
+    | some a => showRatList (fpLayout a)
+    | none => bad
+  | ["fp.tl", l, x] =>
+    match l.toNat?, parseRat x with
+    | some l, some x => showRat (chebTAt l x)
+    | _, _ => bad
+  | ["valid.fp", bits, d, x, tol, phis] =>
+    match bits.toNat?, d.toNat?, parseRat x, parseRat tol, parseRatList phis with
+    | some b, some d, some x, some t, some ph => showV (validFP d ph x t b)
+    | _, _, _, _, _ => bad
   -- sup-norm certificate -----------------------------------------------------------------
   | ["sup.real", bnd, depth, d, l] =>
     match parseRat bnd, depth.toNat?, d.toInt?, parseRatList l with
